@@ -126,9 +126,11 @@ def check_scool(case, ctx: Ctx):
         call("create_scool", cooler.create_scool, path, bins_arg, pixels_arg, h5opts={"compression": None}, **okw, **kw)
         check(call("is_scool_file", is_scool_file, path), "file is not recognised as a single-cell file")
         listing = call("list_scool_cells", list_scool_cells, path)
-        want_listing = sorted(["/cells/" + nm for nm in cells], key=_natkey)
-        check(listing == want_listing, lambda: f"cell listing {listing} want {want_listing}")
-        check(sorted(listing) == sorted("/cells/" + nm for nm in cells), "cell listing does not name exactly the cells given")
+        check(sorted(listing) == sorted("/cells/" + nm for nm in cells),
+              lambda: f"cell listing {listing} does not name exactly the cells given {sorted('/cells/' + nm for nm in cells)}")
+        # documented order: natural; names with equal natural keys ('9' and '09') may come either way round
+        keys_ = [_natkey(x) for x in listing]
+        check(keys_ == sorted(keys_), lambda: f"cell listing {listing} is not in natural order")
         check(sorted(list_coolers(path)) == sorted(listing), "list_coolers and list_scool_cells disagree")
         idx = {"count": 2, "x": 3}
         with h5py.File(path, "r") as f:
